@@ -96,7 +96,7 @@ def h_bed(ctx, ploidy, hapx, female, naming, genome, show, with_cn, symrow=None)
     try:
         out = export.export_bed(segs, ploidy, hapx, genome, female, "lbl", show)
     except Exception as exc:
-        ctx.claim(False, f"export_bed raised {type(exc).__name__}")
+        claim_raised(ctx, "export_bed", exc)
         return
     rows = list(out.itertuples(index=False))
     ctx.observe("n", len(rows))
@@ -143,7 +143,7 @@ def h_vcf(ctx, ploidy, hapx, female, naming, genome, with_cn, symrow=None):
     try:
         header, body = export.export_vcf(segs, ploidy, hapx, genome, female)
     except Exception as exc:
-        ctx.claim(False, f"export_vcf raised {type(exc).__name__}")
+        claim_raised(ctx, "export_vcf", exc)
         return
     lines = body.rstrip("\n").split("\n")
     ctx.claim(lines[0].startswith("#CHROM\tPOS") and lines[0].endswith("\tS1"), "vcf: column header ends with the sample id")
@@ -211,7 +211,7 @@ def h_seg(ctx, nsamples, chrom_ids, dup=False, no_probes=()):
     try:
         out = export.export_seg(fnames, chrom_ids)
     except Exception as exc:
-        ctx.claim(False, f"export_seg raised {type(exc).__name__}")
+        claim_raised(ctx, "export_seg", exc)
         return
     finally:
         export.read_cna = orig
@@ -278,7 +278,7 @@ def h_merge(ctx, nsamples, mismatch, dup, fmt):
     except ValueError as exc:
         raised = str(exc)
     except Exception as exc:
-        ctx.claim(False, f"merge_samples/{fmt} raised {type(exc).__name__}")
+        claim_raised(ctx, f"merge_samples/{fmt}", exc)
         return
     finally:
         export.read_cna = orig
